@@ -241,7 +241,7 @@ fn propagate_nullability(operation: &QueryPlan, bp: &mut BufferProvider) -> Rewr
                 rhs: rhs.forget_nullability(),
                 and: and_non_null,
             }];
-            ops.extend(combine_nulls(bp, lhs, rhs, and_non_null, and));
+            ops.extend(kleene_nulls(bp, lhs, rhs, false, and_non_null, and));
             Rewrite::ReplaceWith(ops)
         }
         Or { lhs, rhs, or } if or.is_nullable() => {
@@ -251,7 +251,7 @@ fn propagate_nullability(operation: &QueryPlan, bp: &mut BufferProvider) -> Rewr
                 rhs: rhs.forget_nullability(),
                 or: or_non_null,
             }];
-            ops.extend(combine_nulls(bp, lhs, rhs, or_non_null, or));
+            ops.extend(kleene_nulls(bp, lhs, rhs, true, or_non_null, or));
             Rewrite::ReplaceWith(ops)
         }
         LessThan { lhs, rhs, less_than } if less_than.is_nullable() => {
@@ -383,6 +383,29 @@ fn combine_nulls(bp: &mut BufferProvider,
                 nullable_data,
             }]
     }
+}
+
+/// Null map of AND / OR: unlike for arithmetic and comparisons, the result can be known although an operand is null
+/// (`FALSE AND NULL` is FALSE, `TRUE OR NULL` is TRUE).
+fn kleene_nulls(bp: &mut BufferProvider,
+                lhs: TypedBufferRef,
+                rhs: TypedBufferRef,
+                is_or: bool,
+                data: TypedBufferRef,
+                nullable_data: TypedBufferRef) -> Vec<QueryPlan> {
+    let present = bp.buffer_u8("kleene_null_map");
+    vec![
+        KleeneNullMap {
+            lhs,
+            rhs,
+            is_or,
+            present,
+        },
+        AssembleNullable {
+            data,
+            present,
+            nullable: nullable_data,
+        }]
 }
 
 fn combine_nulls2(bp: &mut BufferProvider,
